@@ -1598,6 +1598,13 @@ func (dsc *dataStoreCommand) lmove(srcKeyName, destKeyName string, srcLeft, dest
 		return
 	}
 
+	if srcList == destList && srcList.count == 1 {
+		// rotating a one-element list leaves it as it is
+		uk.elements = 1
+		output.data = respBulkString(srcList.head.element)
+		return
+	}
+
 	// remove the item from the source list
 	var item *listItem
 	if srcLeft {
